@@ -1,4 +1,4 @@
-//! Worker subprocess: `mc-decoders --c09-worker <tier> <journal> <seeds-digest>`.
+//! Worker subprocess: `mc-decoders --c09-worker <tier> <journal> <seeds-digest|0|any>`.
 //!
 //! Reads one request per line on stdin, answers one JSON line on stdout.
 //! Before every call into pallas the call index is stored in a shared mapping
@@ -17,7 +17,7 @@ use std::os::unix::io::AsRawFd;
 
 /// Address-space limit of a worker: a length head that makes a decoder
 /// reserve more than this aborts the worker instead of exhausting the host.
-pub const AS_LIMIT: u64 = 8 << 30;
+pub const AS_LIMIT: u64 = 2 << 30;
 /// Stack of the decoding thread (Rust's default for spawned threads is 2 MiB,
 /// the main thread usually has 8 MiB).
 pub const STACK: usize = 8 << 20;
@@ -50,7 +50,10 @@ pub fn main(args: &[String]) -> ! {
     }
     let thorough = args[0] == "thorough";
     let journal_path = args[1].clone();
-    let want_digest: u64 = args[2].parse().unwrap_or(0);
+    // "0": probe-only worker (no seed list); "any": build the list and report
+    // its digest; otherwise the digest the list must have
+    let any = args[2] == "any";
+    let want_digest: u64 = if any { 1 } else { args[2].parse().unwrap_or_else(|_| mc_core::report::machinery_failure("worker: bad digest argument")) };
     unsafe {
         let lim = libc::rlimit { rlim_cur: AS_LIMIT, rlim_max: AS_LIMIT };
         libc::setrlimit(libc::RLIMIT_AS, &lim);
@@ -67,7 +70,7 @@ pub fn main(args: &[String]) -> ! {
             // digest 0 = probe-only worker: no seed list needed
             let world = if want_digest == 0 { World::probe_only(Tuning { thorough }) } else { World::new(Tuning { thorough }) };
             let d = if want_digest == 0 { 0 } else { seeds::digest(&world.seeds) };
-            if d != want_digest {
+            if d != want_digest && !any {
                 mc_core::report::machinery_failure(&format!("worker: seed list differs from the parent's ({d} vs {want_digest})"));
             }
             let stdin = std::io::stdin();
